@@ -238,7 +238,7 @@ pub fn run(cfg: &Cfg, rep: &mut Report) {
     let complete = !cfg.tiny && cfg.only.is_none() && cfg.shard.1 == 1 && rep.counters.get("stage.int-exhaustive.truncated").copied() == before;
     rep.exhaustive.insert("all u8,i8,u16,i16 values (decimal; #H/#Q/#B for the non-negative ones)".into(), complete);
     // ---- integers: boundary + random 32/64/size
-    run_cases(cfg, "int-wide", cfg.n(20, 200_000, 10_000_000), rep, |rng, ctx| {
+    run_cases(cfg, "int-wide", cfg.n(20, 800_000, 16_000_000), rep, |rng, ctx| {
         let x = match rng.usize(6) {
             0 => rng.next(),
             1 => rng.next() >> rng.usize(64),
@@ -297,7 +297,7 @@ pub fn run(cfg: &Cfg, rep: &mut Report) {
         }
     });
     // ---- f64: boundary-directed + random bit patterns
-    run_cases(cfg, "f64", cfg.n(30, 1_000_000, 100_000_000), rep, |rng, ctx| {
+    run_cases(cfg, "f64", cfg.n(30, 3_000_000, 100_000_000), rep, |rng, ctx| {
         let b: u64 = match rng.usize(8) {
             0 => rng.next() & 0x000f_ffff_ffff_ffff | (rng.next() & (1 << 63)),                  // subnormals
             1 => ((rng.usize(2047) as u64) << 52) | (rng.next() & (1 << 63)),                        // powers of two
@@ -329,7 +329,7 @@ pub fn run(cfg: &Cfg, rep: &mut Report) {
         }
     });
     // ---- strings, blocks, character, expression, &str, lists
-    run_cases(cfg, "text", cfg.n(40, 300_000, 10_000_000), rep, |rng, ctx| {
+    run_cases(cfg, "text", cfg.n(40, 900_000, 18_000_000), rep, |rng, ctx| {
         // string content: any ASCII incl. quotes, separators, control characters; sometimes non-ASCII
         let mx = if rng.chance(1, 20) { 300 } else { 24 };
         let n = rng.usize(mx + 1);
@@ -470,7 +470,7 @@ pub fn run(cfg: &Cfg, rep: &mut Report) {
     });
     let complete = cfg.only.is_none() && cfg.shard.1 == 1 && rep.counters.get("stage.errors-all-standard.truncated").copied() == before;
     rep.exhaustive.insert("every standard ErrorCode (found by sweeping get_error over all i16), plain and with two extended texts".into(), complete);
-    run_cases(cfg, "errors-custom", cfg.n(20, 100_000, 2_000_000), rep, |rng, ctx| {
+    run_cases(cfg, "errors-custom", cfg.n(20, 300_000, 6_000_000), rep, |rng, ctx| {
         let p = pools();
         let msg = *rng.pick(&p.ascii);
         let ext = *rng.pick(&p.ascii);
